@@ -88,6 +88,7 @@ class Fn:
 class Mir:
     def __init__(self, path=None):
         path = path or mir_spans_text()
+        self.rich = False         # render alternatives of multi-assigned variables and tuple aggregates
         self.fns = []
         self.by_line = {}         # (file, line) -> [(Fn, Stmt)]
         cur = None
@@ -187,10 +188,11 @@ class Mir:
         m = re.fullmatch(r"\(\*(_\d+)\)", e)
         if m:
             return self._local(fn, m.group(1), depth, seen)
-        if e.startswith("(") and e.endswith(")") and ": " not in e:
+        if self.rich and e.startswith("(") and e.endswith(")") and ": " not in e:
             parts = _split_args(e[1:-1])
             if len(parts) > 1:                                      # tuple aggregate
                 return "(%s)" % ", ".join(self.render(fn, a, depth - 1, seen) for a in parts)
+        e = re.sub(r"\{closure@[^}]*\}", "{closure}", e)                # no source positions in renderings
         # places with projections: ((*_1).0: usize), (*_5)[_8] ...
         locs = RE_LOCAL.findall(e)
         e2 = e
@@ -215,7 +217,7 @@ class Mir:
         if len(ds) == 1 and depth > 0 and loc not in seen:
             # temporaries and immutable `let` bindings are replaced by their definition
             return self.render(fn, ds[0], depth - 1, seen + (loc,))
-        if 1 < len(ds) <= 3 and depth > 1 and loc not in seen:
+        if self.rich and 1 < len(ds) <= 3 and depth > 1 and loc not in seen:
             # a variable assigned on several paths: the (sorted) alternatives, so that an edit of one of them is seen
             alts = sorted({self.render(fn, d, depth - 2, seen + (loc,)) for d in ds})
             return "phi(%s)" % " | ".join(alts)
@@ -323,7 +325,11 @@ class Mir:
             parts = nc.split("::")
             if len(parts) >= 2 and qual is not None and parts[-2] != qual and parts[-2] not in ("Self",):
                 continue
-            r = self.canonical(self.render(fn, rhs, depth=9))
+            self.rich = True
+            try:
+                r = self.canonical(self.render(fn, rhs, depth=9))
+            finally:
+                self.rich = False
             out.add(re.sub(r"\bFixedI\d+\b", "FixedS", re.sub(r"\bFixedU\d+\b", "FixedU", r)))
         return sorted(out)
 
@@ -334,6 +340,13 @@ class Mir:
         comments, `let` extraction and operand order of commutative operations do not change it."""
         import collections
         out = collections.Counter()
+        self.rich = True
+        try:
+            return self._body_fingerprint(name_rx, out)
+        finally:
+            self.rich = False
+
+    def _body_fingerprint(self, name_rx, out):
         rx = re.compile(name_rx)
         n = 0
         for fn in self.fns:
